@@ -1,7 +1,10 @@
 """C07 - CSV, Excel and AIF round trips preserve the isotherm.
 
 proof phase   : Props/C07.v over Codec/CastString.v (cast_string / _to_string on ASCII strings, Python float grammar as a recogniser)
-correspondence: cast_string on 20 000 structured ASCII strings vs the Gallina model executed in Coq (kind of result and integer value)
+                and Codec/CsvDoc.v (the CSV document: writer and reader)
+correspondence: cast_string on 20 000 structured ASCII strings vs the Gallina model executed in Coq (kind of result and integer value);
+                the model's CSV document vs isotherm_to_csv's text line by line and the model's import of that text vs the state of
+                isotherm_from_csv's result, on generated isotherms, inside Coq (oracles repr / float() / _from_list as per-case tables)
 oracle/search : on the implementation: cast_string(_to_string(v)) == v (typed) on structured values of the documented domain;
                 export + import through CSV / AIF / Excel of generated isotherms (three classes x unit configurations x data shapes x
                 metadata drawn from the format's value domain, string and file targets): material and properties, adsorbate,
@@ -21,16 +24,26 @@ from props import codec_common as cc
 from props import c06
 
 MANIFEST = dict(
-    text="PARTIAL. Machine-checked (Coq 8.16, axiom-free): the string codec shared by the CSV and AIF parsers - a Gallina model of _is_none / "
+    text="PARTIAL. Machine-checked (Coq 8.16, axiom-free): (1) the string codec shared by the CSV and AIF parsers - a Gallina model of _is_none / "
          "_is_bool / isnumeric / _is_float (Python's float grammar as a recogniser) / _is_list / cast_string in the code's order - reads str(n) "
          "back as n for EVERY n >= 0 (induction over decimal numerals), None/True/False as themselves, every text outside the spellings of "
-         "none/boolean/number/list unchanged, float-shaped strings through float(); refuted with witnesses: negative ints come back as floats, "
-         "numeric/boolean/none-looking text changes type, tuples come back as text. The model is compared with the implementation on 20 000 "
-         "structured strings per run inside Coq. NOT modelled in Coq: the documents themselves (pandas to_csv/read_csv, xlwt/xlrd cells, gemmi CIF): "
-         "the document-level round trips of the three formats are judged on the implementation by a field-by-field oracle over generated "
-         "isotherms (validation, not proof).",
-    note="Trusted: Coq kernel; Python float()/repr()/int()/ast.literal_eval as oracles; pandas CSV reader/writer, xlwt/xlrd, gemmi; the harness.",
-    technique="Coq proof (induction over numerals, evaluation) on a hand model tied by a per-run differential executed in Coq; round-trip oracle on the implementation")
+         "none/boolean/number/list unchanged, float-shaped strings through float(); (2) the CSV DOCUMENT (Codec/CsvDoc.v): writer (key<sep>value "
+         "lines from to_dict, _material_ flattening, markers, table with 8-decimal texts and ads/des marks, model lines) and reader (rstrip, "
+         "split, ParsingError, cast_string, version pop, _material_ regrouping with str.replace, table rows with the branch column rebuilt, "
+         "model lines, constructors of the C06 model): by induction over the metadata list and the row list, the reader applied to the writer's "
+         "document gives back the keyword dictionary (for keys without separator / leading blank / marker spelling and values in the domain "
+         "cast_string(_to_string v) = v), the column names and every row in order with its mark and its cells through the cell codec; a value "
+         "whose text contains the separator is refused with ParsingError whatever precedes or follows it. Refuted with witnesses: negative ints "
+         "come back as floats, numeric/boolean/none-looking text changes type, tuples come back as text, trailing blanks are stripped, a key "
+         "spelled like 'data...'/'model...' ends the metadata, a material property key containing '_material_' is mangled, the model rmse comes "
+         "back as text. Both models are compared with the implementation inside Coq on every run (20 000 strings; ~110 generated CSV documents "
+         "line by line and their re-imported state). The CSV theorems stop at the constructor call, take a one-character separator, and take "
+         "repr / float() / _from_list / pandas' cell reader through explicit premises. NOT modelled in Coq: pandas quoting, xlwt/xlrd cells, gemmi "
+         "CIF: the Excel and AIF round trips (and CSV beyond the fragment) are judged on the implementation by a field-by-field oracle over "
+         "generated isotherms (validation, not proof).",
+    note="Trusted: Coq kernel; Python float()/repr()/int()/ast.literal_eval as oracles (finite tables per case in the CSV correspondence); pandas "
+         "CSV reader/writer on homogeneous columns, xlwt/xlrd, gemmi; numpy round(8) = exact rounding away from ties; the harness.",
+    technique="Coq proof (induction over numerals, metadata lists and row lists; evaluation) on hand models tied by per-run differentials executed in Coq; round-trip oracle on the implementation")
 
 SCR = os.path.join(vlib.VERIF, '.scratch')
 HEADER = """From Coq Require Import ZArith NArith String List Bool Ascii.
@@ -394,6 +407,33 @@ def roundtrips(rep0, tier, seed):
                 rep.failure(classify(fmt, spec, o0, o1, 'id', None, '', exp, imp), '%s round trip: content equal, identifier differs' % fmt,
                             dict(rp, kind='id', detail=str((o0.get('dtypes'), o1.get('dtypes'), o0.get('columns'), o1.get('columns')))[:400]))
             nontrivial.add((fmt, spec['cls'], tuple(sorted((a, type(b).__name__) for a, b in o0['meta'].items())), len(o0.get('rows', [])), tuple(o0['units'])))
+        # directed: keys of the documented domain that collide with the CSV reader's own markers
+        if fmt == 'csv':
+            for k, (key, mp) in enumerate([('datafile', None), ('model_used', None), ('database_id', None), ('k1', 'raw_material_id'), ('k1', 'x_material_y')]):
+                for cls in ('base', 'point', 'model'):
+                    spec = cc.gen_spec(rnd, 'flat', cls=cls, blank_keys=False, mat_nested=False)
+                    spec['meta'] = {key: 'x1'}
+                    spec['mprops'] = {mp: 7} if mp else {}
+                    if cls == 'point':
+                        spec['data']['cols'] = {}
+                        spec['data']['branch'] = 'guess'
+                    try:
+                        iso = cc.build(spec)
+                    except Exception:  # noqa
+                        continue
+                    o0 = cc.observe(iso)
+                    exp, imp, j, msg = do_roundtrip(fmt, iso, 8000 + k, 'string')
+                    hist[fmt + '/directed-marker-keys'] = hist.get(fmt + '/directed-marker-keys', 0) + 1
+                    o1 = cc.observe(j) if j is not None else None
+                    d = content_diff(o0, o1) if o1 is not None else None
+                    if exp == 'Ok' and imp in ('ParsingError', 'ParameterError'):
+                        continue
+                    if exp == 'Ok' and imp == 'Ok' and d is None:
+                        continue
+                    what = 'marker-like-key' if mp is None else 'material-property-key-containing-_material_'
+                    tag = 'C07:csv:%s-%s' % (what, 'raw-error' if imp != 'Ok' else 'silently-changed')
+                    rep.failure(tag, 'csv: metadata key %r / material property %r: import %s %s' % (key, mp, imp, msg if imp != 'Ok' else 'changed %s' % (d,)),
+                                {'fmt': fmt, 'spec': c06_js(spec), 'target': 'string', 'kind': 'directed-marker-keys'})
         # malformed stream: only oracle = pyGAPS error or unchanged value
         if fmt != 'xl':
             for k, txt in enumerate(MALFORMED):
@@ -425,12 +465,165 @@ def roundtrips(rep0, tier, seed):
     return hist, nontrivial
 
 
+# ------------------------------------------------------------------ D. CSV document model (Codec/CsvDoc.v) vs the implementation
+CSV_HEADER = cc.HEADER + 'From PG Require Import Codec.JsonShow Codec.CastString Codec.CsvDoc Codec.CsvShow.\n'
+CSV_FIELDS = ['units', 'material name', 'material properties', 'adsorbate', 'temperature', 'metadata', 'class', 'cells', 'branch marks', 'model', 'keys']
+
+
+def _walk_floats(v, out):
+    v = cc.py(v)
+    if isinstance(v, float):
+        if v == v and v not in (float('inf'), float('-inf')):
+            out.add(v)
+    elif isinstance(v, (list, tuple)):
+        for x in v:
+            _walk_floats(x, out)
+    elif isinstance(v, dict):
+        for x in v.values():
+            _walk_floats(x, out)
+
+
+def csv_oracle_tables(o0, text, sep=','):
+    """the oracles of CsvDoc.v as finite tables read off the implementation / Python for THIS case:
+    repr(float) of the floats of the isotherm state, float(s) and _from_list(s) of the fields of the document"""
+    from pygaps.utilities.string_utilities import _from_list
+    fl = set()
+    for part in (o0['temperature'], o0['meta'], o0['mprops']):
+        _walk_floats(part, fl)
+    if o0['cls'] == 'model':
+        m = o0['model']
+        for part in (m['rmse'], m['params'], list(m['prange']), list(m['lrange'])):
+            _walk_floats(part, fl)
+    rt = '[%s]' % '; '.join('(%s, %s)' % (vlib.flit(x), cc.cstr(repr(x))) for x in sorted(fl))
+    cands = set()
+    for line in text.split('\n'):
+        for ln in (line, line.rstrip(), line.strip()):
+            for f in ln.split(sep):
+                cands.add(f)
+    ft, lt = [], []
+    for f in sorted(cands):
+        try:
+            ft.append('(%s, %s)' % (cc.cstr(f), cc.cval(float(f))))
+        except ValueError:
+            pass
+        if f[:1] in '[(' and f[-1:] in '])':
+            try:
+                lt.append('(%s, %s)' % (cc.cstr(f), cc.cval(_from_list(f))))
+            except Exception:  # noqa  the oracle raises: the table has no entry, the model maps that to the reader's error
+                pass
+    return rt, '[%s]' % '; '.join(ft), '[%s]' % '; '.join(lt)
+
+
+def away_from_ties(x):
+    """numpy.round(x, 8) is rint(x * 1e8) / 1e8 in binary arithmetic; the model rounds exactly: keep cells off the .5 boundary"""
+    if isinstance(x, float) and x == x and abs(x) < 1e15:
+        f = (abs(x) * 1e8) % 1.0
+        if abs(f - 0.5) < 1e-3:
+            return round(x, 7)
+    return x
+
+
+def csv_correspondence(rep, tier, seed):
+    import pygaps.parsing as pp
+    rnd = random.Random(seed + 29)
+    n = 1200 if tier == 'thorough' else 110
+    specs = gen_specs(rnd, 'csv', n)
+    for txt in ['a,b', 'trail ', ' lead', 'a,b,c', 'x;y', 'tab\there', [1, 2], ['a', 'b'], (1, 2), -5, 'data point', 'modelled', '']:
+        s0 = cc.gen_spec(rnd, 'flat', cls='base', blank_keys=False, mat_nested=False)
+        s0['meta'] = {'comment': txt, 'k2': 1.5}
+        specs.append(s0)
+    for key in ['datafile', 'model_used', 'data', 'raw_material_batch']:
+        s0 = cc.gen_spec(rnd, 'flat', cls=rnd.choice(['base', 'point']), blank_keys=False, mat_nested=False)
+        s0['meta'] = {'k1': 2, key: 'x1'}
+        s0['mprops'] = {'raw_material_id': 7} if key == 'raw_material_batch' else s0['mprops']
+        specs.append(s0)
+    tbl = cc.ads_canon_table()
+    terms, cases = [], []
+    skipped = {}
+    for k, spec in enumerate(specs):
+        if spec['cls'] == 'point':
+            d = spec['data']
+            if not isinstance(d['branch'], str) and any(isinstance(b, bool) for b in d['branch']):
+                skipped['bool marks (known finding C07-F6, judged by the oracle)'] = skipped.get('bool marks (known finding C07-F6, judged by the oracle)', 0) + 1
+                continue
+            d['p'], d['l'] = [away_from_ties(x) for x in d['p']], [away_from_ties(x) for x in d['l']]
+            d['cols'] = {c: [away_from_ties(x) for x in v] for c, v in d['cols'].items()}
+        try:
+            iso = cc.build(spec)
+        except Exception:  # noqa
+            continue
+        o0 = cc.observe(iso)
+        try:
+            text = pp.isotherm_to_csv(iso)
+        except Exception:  # noqa  (judged by the round-trip oracle)
+            continue
+        try:
+            j = pp.isotherm_from_csv(text)
+            imp, o1 = 'Ok', cc.observe(j)
+        except Exception as e:  # noqa
+            imp, o1 = vlib.exn_class(e), o0
+        rt, ft, lt = csv_oracle_tables(o0, text)
+        terms.append('(chk_csv (ascii_of_nat 44) %s %s %s %s %s %s (%d)%%Z %s)' % (
+            rt, ft, lt, tbl, cc.coq_iso(o0), cc.cstr(text), vlib.EXN.index(imp) if imp in vlib.EXN else 99, cc.coq_iso(o1)))
+        cases.append(dict(spec=spec, text=text, imp=imp))
+    model = None
+    try:
+        model = vlib.run_coq_cases('c07d', CSV_HEADER, 'fun x : list Z => x', terms, per_file=10, nested=True)
+    except RuntimeError as e:
+        rep.broken_obligation('correspondence:CsvDoc-evaluation', str(e)[-800:])
+    n_dis = n_out = n_doc = n_imp = 0
+    kinds = {}
+    if model is not None:
+        for c, mz in zip(cases, model):
+            bad = None
+            lines = c['text'].split('\n')
+            if mz[0] == 9:
+                n_out += 1                       # the writer model is fail-closed outside its fragment (quoting, nested containers)
+            elif mz[0] != 0:
+                bad = 'export: the model raises %s, the implementation wrote a document' % vlib.EXN[mz[0]]
+            elif mz[1] != -1:
+                bad = 'line %d of the document differs from the model: implementation wrote %r' % (mz[1], lines[mz[1]] if 0 <= mz[1] < len(lines) else '<end>')
+            else:
+                n_doc += 1
+            if bad is None:
+                if mz[2] == 9 and c['imp'] != 'FellOffEnd':
+                    n_out += 1 if mz[0] != 9 else 0
+                elif mz[2] == 7 and c['imp'] in ('ValueError', 'other:SyntaxError'):
+                    n_imp += 1                   # _from_list (ast.literal_eval) is an oracle: the class of ITS error is not modelled
+                    kinds['raw error of the _from_list oracle'] = kinds.get('raw error of the _from_list oracle', 0) + 1
+                elif mz[3] != 1:
+                    bad = 'import outcome: model %s, implementation %s' % (vlib.EXN[mz[2]] if mz[2] < len(vlib.EXN) else mz[2], c['imp'])
+                elif mz[2] == 0:
+                    wrong = [CSV_FIELDS[i] for i, v in enumerate(mz[4:]) if v != 1]
+                    if wrong:
+                        bad = 'state of the re-imported isotherm differs from the model in: ' + ', '.join(wrong)
+                    else:
+                        n_imp += 1
+                else:
+                    n_imp += 1
+                    kinds[c['imp']] = kinds.get(c['imp'], 0) + 1
+            if bad:
+                n_dis += 1
+                if n_dis <= 5:
+                    rep.broken_obligation('correspondence:CsvDoc-vs-implementation', {'what': bad, 'spec': c['spec']})
+        if len(cases) and n_doc < 0.6 * len(cases):
+            rep.broken_obligation('correspondence:CsvDoc-coverage', 'only %d of %d documents are inside the modelled fragment' % (n_doc, len(cases)))
+    rep.cov['csv_document_correspondence'] = {'cases': len(cases), 'documents_equal_line_by_line': n_doc, 'imports_agree': n_imp, 'refused_alike': kinds,
+                                              'outside_modelled_fragment': n_out, 'disagreements': n_dis, 'not_submitted': skipped}
+    rep.cov['evaluations'] += len(cases)
+    return n_doc
+
+
+
 def c06_js(spec):
     return spec
 
 
+EXTRA_TARGETS = ['Codec/CsvShow.vo']
+
+
 def run(rep, tier, seed):
-    vlib.standard_proof_phase(rep, 'C07')
+    vlib.standard_proof_phase(rep, 'C07', extra_targets=EXTRA_TARGETS)
     explore(rep, tier, seed)
     if rep.broken and not rep.violations and tier != 'thorough':
         explore(rep, 'thorough', seed + 1)
@@ -440,11 +633,13 @@ def explore(rep, tier, seed):
     nk = cast_differential(rep, tier, seed)
     to_string_oracle(rep, tier, seed)
     hist, nontrivial = roundtrips(rep, tier, seed)
+    nk += csv_correspondence(rep, tier, seed)
     rep.cov['distinct_nontrivial'] = len(nontrivial) + nk
     rep.cov['rule'] = ('(a) 20 000 distinct structured ASCII strings (numerals in every Python spelling incl. underscores/exponents/blanks, case variants of '
                        'none/true/false/nan/inf, brackets, random strings over a small alphabet, repr of floats) through cast_string vs the Coq model; '
                        '(b) 20 000 values of the documented domain through cast_string(_to_string(v)); (c) per format 200 generated isotherms (as C06, metadata '
-                       'restricted to the format value domain) exported and re-imported, string and file targets, plus a malformed-text stream. non-trivial = '
+                       'restricted to the format value domain) exported and re-imported, string and file targets, plus a malformed-text stream and directed '
+                       'marker-like keys; (d) ~110 generated isotherms + directed texts through the Coq model of the CSV document. non-trivial = '
                        'distinct (format, class, typed metadata shape, rows, unit labels) preserved by the round trip + distinct (result kind, length) of (a)')
     rep.cov['input_distribution'] = dict(sorted(hist.items()))
     rep.cov['trusted_base'] += ['oracles: Python float()/repr()/int()/ast.literal_eval; pandas to_csv/read_csv; xlwt/xlrd; gemmi.cif',
